@@ -795,7 +795,7 @@ func peerExec1(tok []string) string {
 		case "newproxyresp":
 			m = &msg.NewProxyResp{ProxyName: "p1"}
 		case "udp":
-			m = &msg.UDPPacket{Content: "aGk="}
+			m = udpPacketOf([]byte("hi"), nil, nil) // eng_udp.go; content text "aGk="
 		case "nhvisitor":
 			m = &msg.NatHoleVisitor{ProxyName: "p1", SignKey: good, Timestamp: 5}
 		case "nhclient":
